@@ -231,3 +231,5 @@ Print Assumptions C02_evolve2d_plain_dynamic_spec.
 Print Assumptions C02_radius_guard.
 Print Assumptions C02_checked_accepts.
 Print Assumptions C02_checked_rejects.
+From CPL Require Import gen.GenFuns_C02 GenProps.GenFunsEquivC02 GenProps.C02Src. (* source tie: gen/GenFuns_C02.v is regenerated from ca_functions2d.py on every run *)
+Theorem C02_source_tie : (forall r : nat, src_vn_mask (Z.of_nat r) = Ok (vn_mask r)) /\ (forall R C x y r : nat, src_axis_indices (Z.of_nat x) (Z.of_nat y) (Z.of_nat r) (Z.of_nat R) (Z.of_nat C) = (axis_indices R x r, axis_indices C y r)). Proof. exact C02_source_translation_agrees. Qed. Print Assumptions C02_source_tie.
